@@ -805,6 +805,12 @@ class Gen(object):
             self.emit("%s %s K:%s" % (which, x.tok(), vtok(k)), "exact", "fw")
             return
         (bx, by), B = batches(rng, 2)
+        if rng.random() < 0.3:
+            # a larger minibatch folded into a shared destination (what reaches every Parameter gradient): sizes on both
+            # sides of 8 and 16, powers of two and not
+            bx, by = rng.choice([7, 8, 9, 10, 12, 15, 16, 17, 24]), 1
+            B = bx
+            dims = rdims(rng, 2)
         x = rtensor(rng, dims, bx, kind)
         y = rtensor(rng, dims, by, kind)
         r = rng.random()
@@ -1362,6 +1368,14 @@ def run_family(chk, prop):
                 if w:
                     chk.report("karith:%s:batch-law:%s" % (m["kernel"], line.split(" ")[0]), "`%s`: %s" % (line[:300], w),
                                replay_obj([line] + m["samples"], observed_impl=got[line][0]))
+            # the fold of a minibatch into a shared destination (x[B] added into y[1]: the sum over the samples) is what
+            # carries every gradient into a batch-1 operand; exact on the integer / dyadic data of these lines
+            for line, m in meta.items():
+                impl, model = got[line]
+                if m["kernel"] in ("inplace_add", "inplace_subtract") and line in dis_lines and impl.startswith("ok") and model.startswith("ok"):
+                    chk.report("karith:%s:batch-fold:%s" % (m["kernel"], line.split(" ")[0]),
+                               "the sum over the samples folded into a shared destination is wrong: " + what_line(line),
+                               replay_obj([line], observed_impl=impl, model=model))
     # correspondence failures not attributable to a property of this run (e.g. acceptance differs)
     for d in dis:
         if d["impl"].startswith("crash"):
